@@ -114,6 +114,7 @@ Outcome classify(const std::string &prop, const std::string &out, int status) {
         size_t p = out.rfind("CRASH sig=");
         if (p != std::string::npos) {
             cls = "sig" + out.substr(p + 10, out.find(' ', p + 10) - (p + 10));
+            if (cls == "sig14") { o.kind = "timeout"; cls = "watchdog"; }
             size_t f = out.find("fn=", p);
             if (f != std::string::npos) {
                 fn = out.substr(f + 3, out.find(' ', f + 3) - (f + 3));
@@ -176,7 +177,7 @@ Outcome classify(const std::string &prop, const std::string &out, int status) {
     return o;
 }
 
-Outcome run_in_child(const Case &c, unsigned timeout_s = 20) {
+Outcome run_in_child(const Case &c, unsigned timeout_s = 40) {
     int pfd[2];
     if (pipe(pfd) != 0) { Outcome o; o.kind = "ok"; return o; }
     // shared progress word so that a crash inside alternative a is attributable
@@ -211,7 +212,7 @@ Outcome run_in_child(const Case &c, unsigned timeout_s = 20) {
 }
 
 bool reproduces(const Case &c, const std::string &key) {
-    Outcome o = run_in_child(c, 20);
+    Outcome o = run_in_child(c, 40);
     return o.keys.count(key) != 0;
 }
 
